@@ -245,6 +245,7 @@ pub fn gen_bundle(rng: &mut Rng, p: &GenParams) -> ABundle {
 
     // ---- coins -------------------------------------------------------------------
     let mut d = Draft { spends: vec![], budget: 0 };
+    let mut ff_candidates: Vec<usize> = vec![];
     let big_amounts = rng.below(100) < p.big_amount_pct;
     for _ in 0..n {
         let puzzle_idx = rng.usize(NUM_PUZZLES);
@@ -308,6 +309,50 @@ pub fn gen_bundle(rng: &mut Rng, p: &GenParams) -> ABundle {
         if ephemeral_child && rng.chance(1, 2) {
             d.spends.last_mut().unwrap().conds.push(cond(&[76], &[]));
         }
+        // fast-forward candidates: an odd amount and an output that re-creates the coin's own puzzle
+        // hash and amount (what a singleton does); whether the spend stays eligible then depends on
+        // the other conditions it happens to get and on which of its outputs are spent in the bundle
+        if !ephemeral_child && amount & 1 == 1 && rng.chance(1, 3) {
+            let sp = d.spends.last_mut().unwrap();
+            sp.conds.push(cond(&[51], &[Sx::atom(&puzzle_hash), int_atom(amount)]));
+            d.budget -= u128::from(amount);
+            ff_candidates.push(d.spends.len() - 1);
+        }
+    }
+    // children of fast-forward candidates: spend one of the candidate's OTHER outputs (an amount that
+    // differs from the candidate's), or the re-created coin itself
+    for &ci in &ff_candidates {
+        if !rng.chance(1, 3) || d.spends.len() >= p.max_spends + 2 {
+            continue;
+        }
+        let k = rng.usize(NUM_PUZZLES);
+        let ph = puzzle(k).tree_hash();
+        let parent = d.spends[ci].coin_id();
+        let own_amount = d.spends[ci].amount;
+        let amount = if rng.chance(1, 4) { own_amount } else { 2 + rng.below(1000) };
+        if u128::from(amount) > d.budget {
+            continue;
+        }
+        // usually the candidate really creates that coin; sometimes not (then the child is not ephemeral)
+        if !rng.chance(1, 6) {
+            d.spends[ci].conds.push(cond(&[51], &[Sx::atom(&ph), int_atom(amount)]));
+            d.budget -= u128::from(amount);
+        }
+        d.budget += u128::from(amount);
+        d.spends.push(ASpend {
+            parent,
+            puzzle_idx: k,
+            puzzle_hash: ph,
+            amount,
+            amount_atom: int_atom(amount),
+            parent_atom: Sx::atom(&parent),
+            puzzle_hash_atom: Sx::atom(&ph),
+            conds: vec![],
+            cond_term: Sx::nil(),
+            spend_ext: Sx::nil(),
+            fields: 4,
+        });
+        tags.push("ff-candidate-child".into());
     }
     let n = d.spends.len();
 
